@@ -178,7 +178,7 @@ func checkHistory(evs []hEvent, localPath string) []string {
 	return probs
 }
 
-func c08Stmt(r *rand.Rand, pi int) *jen.Statement {
+func c08Stmt(r *rand.Rand, pi int, used *[]int) *jen.Statement {
 	q := jen.Qual(c08Paths[pi], fmt.Sprintf("Sym%dX", pi))
 	n := r.Intn(1e6)
 	switch r.Intn(9) {
@@ -194,6 +194,7 @@ func c08Stmt(r *rand.Rand, pi int) *jen.Statement {
 		return jen.Type().Id(fmt.Sprintf("T_%d", n)).Struct(jen.Id("A").Add(q).Tag(map[string]string{"j": "k", "a": "b"}))
 	case 5:
 		pj := r.Intn(len(c08Paths))
+		*used = append(*used, pj)
 		return jen.Var().Id(fmt.Sprintf("V_%d", n)).Op("=").Map(jen.Int()).Int().Values(jen.Dict{q: jen.Lit(1), jen.Qual(c08Paths[pj], fmt.Sprintf("Sym%dX", pj)): jen.Lit(2)})
 	case 6:
 		return jen.Func().Id(fmt.Sprintf("F_%d", n)).Params().Block(jen.Select().Block(jen.Case(jen.Op("<-").Add(q)).Block(), jen.Default().Block()), jen.Switch().Block(jen.Default().Block(nil, jen.Null())))
@@ -229,7 +230,7 @@ func c08Execute(rnd *rand.Rand) *c08Run {
 	for i := 0; i < 3; i++ {
 		pi := rnd.Intn(len(c08Paths))
 		usedPaths = append(usedPaths, pi)
-		frags = append(frags, c08Stmt(rnd, pi))
+		frags = append(frags, c08Stmt(rnd, pi, &usedPaths))
 	}
 	for i := 0; i < 2; i++ {
 		pi := rnd.Intn(len(c08Paths))
@@ -243,7 +244,7 @@ func c08Execute(rnd *rand.Rand) *c08Run {
 	{
 		pi := rnd.Intn(len(c08Paths))
 		usedPaths = append(usedPaths, pi)
-		f.Add(c08Stmt(rnd, pi))
+		f.Add(c08Stmt(rnd, pi, &usedPaths))
 	}
 	referenced := map[string]bool{}
 	render := func(fn func(buf *bytes.Buffer) error) (string, string) {
@@ -328,7 +329,7 @@ func c08Execute(rnd *rand.Rand) *c08Run {
 			pi := rnd.Intn(len(c08Paths))
 			e.Op, e.Arg = "Add", c08Paths[pi]
 			usedPaths = append(usedPaths, pi)
-			f.Add(c08Stmt(rnd, pi))
+			f.Add(c08Stmt(rnd, pi, &usedPaths))
 		case k < 11:
 			pi := rnd.Intn(len(c08Paths))
 			if len(usedPaths) > 0 && rnd.Intn(5) < 3 {
@@ -351,6 +352,23 @@ func c08Execute(rnd *rand.Rand) *c08Run {
 			}
 		case k < 12 && rnd.Intn(2) == 0:
 			p := fmt.Sprintf("anon.only/p%d", rnd.Intn(4))
+			if rnd.Intn(2) == 0 {
+				// a path of the pool that nothing built so far refers to: it may be referenced later (Anon first,
+				// reference afterwards is inside the statement; only Anon on an already referenced path is excluded)
+				var free []int
+				for pi, cp := range c08Paths {
+					isUsed := cp == "C" || cp == "my/local"
+					for _, u := range usedPaths {
+						isUsed = isUsed || u == pi
+					}
+					if !isUsed {
+						free = append(free, pi)
+					}
+				}
+				if len(free) > 0 {
+					p = c08Paths[free[rnd.Intn(len(free))]]
+				}
+			}
 			e.Op, e.Arg = "Anon", p
 			f.Anon(p) // never a path that is referenced (excluded by the statement)
 		default:
@@ -448,7 +466,7 @@ func c08Case(r *mon.Run, idx int64) {
 }
 
 func runC08(r *mon.Run) {
-	r.SetRule("random histories of 4-20 operations over one File (File.Render, File.GoString, Statement.RenderWithFile, Group.RenderWithFile — each render performed twice in a row —, renders whose writer fails on purpose, adding statements, ImportName/ImportNames/ImportAlias incl. '.', for fresh and already rendered paths, Anon of unreferenced paths, PackagePrefix toggles); Files with/without local path, prefix, NoFormat; statements with case blocks (empty/nil bodies), Dicts, Tags, nil items; judged offline on the recorded event log: repeat-equal, name-monotone, declared. non-trivial = history with >=2 renders; distinct by operation sequence")
+	r.SetRule("random histories of 4-20 operations over one File (File.Render, File.GoString, Statement.RenderWithFile, Group.RenderWithFile — each render performed twice in a row —, renders whose writer fails on purpose, adding statements, ImportName/ImportNames/ImportAlias incl. '.', for fresh and already rendered paths, Anon of paths nothing refers to yet (some are referenced by later additions), PackagePrefix toggles); Files with/without local path, prefix, NoFormat; statements with case blocks (empty/nil bodies), Dicts, Tags, nil items; judged offline on the recorded event log: repeat-equal, name-monotone, declared. non-trivial = history with >=2 renders; distinct by operation sequence")
 	r.Assume("Anon on an already referenced path is excluded (as the statement says)")
 	c08NegControls(r)
 	n := r.Pick(3000, 100000)
